@@ -682,8 +682,41 @@ def rich_shard(arg):
     return sh.dict()
 
 
+def threads_shard(arg):
+    """several threads of one process, each working on a layer of its own in one layers directory"""
+    idxs, work = arg
+    sh = vp.Shard()
+    for idx in idxs:
+        root = os.path.join(work, "thr%d-%d" % (os.getpid(), idx))
+        layers = os.path.join(root, "layers")
+        for d in (layers, os.path.join(root, "app"), os.path.join(root, "bp")):
+            os.makedirs(d)
+        mon = vp.Mon("layers")
+        try:
+            mon.call({"op": "init", "layers_dir": layers, "app_dir": os.path.join(root, "app"), "bp_dir": os.path.join(root, "bp")})
+            threads, rounds = [2, 4, 8, 16][idx % 4], 120
+            rep = mon.call({"op": "threads", "threads": threads, "rounds": rounds})
+            sh.evaluations += rep.get("writes", 0)
+            sh.count("route_threads", rep.get("writes", 0))
+            case = {"threads": threads, "rounds": rounds}
+            if rep.get("problems") or rep.get("stray"):
+                sh.violation("threads:%s" % ("other-layers-content" if rep.get("problems") else "stray-files"), "%d threads, each requesting and writing its own layer %d times: %s; entries in <layers> that belong to no layer: %r"
+                             % (threads, rounds, "; ".join(rep.get("problems", [])) or "-", rep.get("stray")), case)
+            else:
+                sh.nontrivial.add(("threads", threads))
+        except vp.ExecutorDied as e:
+            sh.violation("threads:process-died", "the process died (status %s) while %d threads handled their layers" % (e.status, threads), {"threads": threads})
+        finally:
+            mon.close()
+            vp.rmtree(root)
+    return sh.dict()
+
+
 def run(tier, seed, work):
     res = vp.Result("C01", tier, seed, "exploration")
+    for d in vp.pmap(threads_shard, [(s, work) for s in vp.split(list(range(16 if tier == "quick" else 160)), 4)]):
+        res.merge(d)
+    res.required = ["route_threads"]
     maxlen = 3 if tier == "quick" else 5
     hs = list(enumerate(enum_histories(maxlen)))
     r = vp.rng(seed, "c01-len")
